@@ -270,12 +270,22 @@ class ChainState:
             A copy of the state object with variable attributes that are independent
             copies of the original state object's variables.
         """
+        variables = {name: copy.copy(val) for name, val in self._variables.items()}
+        cache = self._cache.copy()
+        # A cached value may be one of the variables of this state itself (for example
+        # the identity metric applied to the momentum returns the momentum array). Let
+        # the copy refer to its own copy of the variable, as an in-place update of the
+        # variable of one state would otherwise change a value cached in the other.
+        for key, cached_val in cache.items():
+            for name, val in self._variables.items():
+                if cached_val is val:
+                    cache[key] = variables[name]
         return type(self)(
             _dependencies=self._dependencies,
-            _cache=self._cache.copy(),
+            _cache=cache,
             _call_counts=self._call_counts,
             _read_only=read_only,
-            **{name: copy.copy(val) for name, val in self._variables.items()},
+            **variables,
         )
 
     def __str__(self) -> str:
